@@ -463,7 +463,7 @@ pub fn one(data: &[u8]) {
         "C18" => {
             let plan = decode_plan(&mut c);
             let n = 1 + c.pick(6);
-            let steps = (0..n).map(|_| (c.u8() % 18, c.u16(), c.bool())).collect();
+            let steps = (0..n).map(|_| (c.u8() % 19, c.u16(), c.bool())).collect();
             let case = c18::Siblings { plan, steps };
             let r = c18::check_siblings(&case, &mut cc);
             settle(st, "siblings-in-sequence", &case, r);
